@@ -1,4 +1,100 @@
 import TsRsVerif.Model.Serde
+import TsRsVerif.Model.TsEval
+import TsRsVerif.Lemmas.BuiltinLemmas
+import TsRsVerif.Lemmas.MemberLemmas
+import TsRsVerif.Lemmas.MemberbSound
+import TsRsVerif.Props.C12
+/-!
+# C01 — serialized values inhabit the generated TypeScript type
+
+`Member` (Model/Ts.lean) is the meaning of a TypeScript type under the property's reading (exact
+objects, `bigint` = JSON integer, `A & B` on objects = disjoint merge).  What is PROVEN here:
+
+* `C01_oracle_sound` — the executable test the check runs on the implementation's REAL declarations
+  and REAL serde_json output is sound for `Member`: a `true` verdict is a theorem instance;
+* `C01_library_lifts` — every library type constructor (to any depth) preserves soundness of the
+  named types below it (this is C12's induction);
+* the assembly lemmas every derive arm reduces to: an exact object from its fields (`C01_struct`),
+  externally / adjacently tagged variants, union arms, internally tagged struct variants.
+
+PARTIAL: the composition "for every item, `ser` lands in `parse (decl)`" over the whole derive
+(`Derive.itemDef` is a string-level model) is not proven as one theorem; it is decided per run by
+the sound oracle on every generated program and value (thousands per run, all enum
+representations × shapes × attributes × generics).
+-/
 namespace TsRs
-theorem C01_placeholder : True := trivial
+open Text Ts Builtin
+
+/-- **the oracle is sound**: whenever the executable membership test accepts, the JSON value IS a
+member of the TypeScript type in the formal semantics (any declarations, any fuel). -/
+theorem C01_oracle_sound (D : Decls) (fuel : Nat) (t : Ts) (j : JVal) (h : memberb D fuel t j = true) :
+    Member D t j := memberb_sound D fuel t j h
+
+/-- **library constructors lift soundness**: if serialization of the user types is sound
+(`NamedSound`), it is sound under `Option`, `Vec`, arrays, tuples, maps, `Result`, ranges, wrappers,
+nested to any depth. -/
+theorem C01_library_lifts (D : Decls) (limit : Nat) (nameN : Str → List Ts → Option Ts)
+    (serN : Str → List RTy → RVal → Option JVal) (hN : NamedSound D limit nameN serN)
+    (t : RTy) (v : RVal) (T : Ts) (j : JVal)
+    (hT : nameTyB limit nameN t = some T) (hs : serB serN t v = some j) (hc : cleanV v = true) :
+    Member D T j := C12_sound_over D limit nameN serN hN t v T j hT hs hc
+
+/-- **a struct with named fields**: the object holding exactly one entry per (non-skipped) field,
+under the field's (renamed) key, each value a member of the field's type, inhabits
+`{ k₁: T₁, …, kₙ: Tₙ, }` — for any number of fields, keys pairwise distinct. -/
+theorem C01_struct (D : Decls) (l : List (Str × Ts × JVal)) (hnd : (l.map (·.1)).Nodup)
+    (hm : ∀ x ∈ l, Member D x.2.1 x.2.2) :
+    Member D (.obj (l.map fun x => (({ name := x.1 } : TsKey), x.2.1))) (.obj (l.map fun x => (x.1, x.2.2))) :=
+  obj_sound D l hnd hm
+
+/-- externally tagged non-unit variant: `{ "Name": T }` -/
+theorem C01_external_variant (D : Decls) (name : Str) (T : Ts) (j : JVal) (h : Member D T j) :
+    Member D (.obj [({ name := name }, T)]) (.obj [(name, j)]) := by
+  have := obj_sound D [(name, T, j)] (by simp) (by intro x hx; simp at hx; subst hx; exact h)
+  simpa using this
+
+/-- externally tagged unit variant: the string literal -/
+theorem C01_external_unit (D : Decls) (name : Str) : Member D (.lit name) (.str name) := Member.lit name
+
+/-- adjacently tagged variant: `{ "tag": "Name", "content": T }` (tag ≠ content) -/
+theorem C01_adjacent_variant (D : Decls) (tag content name : Str) (T : Ts) (j : JVal) (hne : tag ≠ content)
+    (h : Member D T j) :
+    Member D (.obj [({ name := tag }, .lit name), ({ name := content }, T)]) (.obj [(tag, .str name), (content, j)]) := by
+  have := obj_sound D [(tag, .lit name, .str name), (content, T, j)]
+    (by simp [hne]) (by
+      intro x hx; simp at hx
+      rcases hx with rfl | rfl
+      · exact Member.lit name
+      · exact h)
+  simpa using this
+
+/-- internally tagged struct variant / tagged struct: the tag property first, then the fields -/
+theorem C01_internal_struct (D : Decls) (tag name : Str) (l : List (Str × Ts × JVal))
+    (hnd : (tag :: l.map (·.1)).Nodup) (hm : ∀ x ∈ l, Member D x.2.1 x.2.2) :
+    Member D (.obj (({ name := tag }, .lit name) :: l.map fun x => (({ name := x.1 } : TsKey), x.2.1)))
+      (.obj ((tag, .str name) :: l.map fun x => (x.1, x.2.2))) := by
+  have := obj_sound D ((tag, .lit name, .str name) :: l) (by simpa using hnd) (by
+    intro x hx; simp at hx
+    rcases hx with rfl | hx
+    · exact Member.lit name
+    · exact hm x hx)
+  simpa using this
+
+/-- a member of one arm is a member of the union the enum is declared as -/
+theorem C01_union_arm (D : Decls) (arms : List Ts) (T : Ts) (j : JVal) (hT : T ∈ arms) (h : Member D T j) :
+    Member D (.union arms) j := Member.union hT h
+
+/-- a reference to a (generic) declaration is its body at the arguments -/
+theorem C01_reference (D : Decls) (n : Str) (args : List Ts) (ps : List Str) (body : Ts) (j : JVal)
+    (hl : lookupDecl D n = some (ps, body)) (h : Member D (subst (ps.zip args) body) j) :
+    Member D (.ref n args) j := Member.ref hl h
+
+/-! ## non-vacuity: a real-looking instance through the sound oracle -/
+example : Member
+    [("Leaf".toList, [], .obj [({ name := "x".toList }, .number), ({ name := "fooBar".toList }, .union [.string, .null])])]
+    (.union [.obj [({ name := "t".toList }, .lit "A".toList)],
+             .obj [({ name := "t".toList }, .lit "B".toList), ({ name := "c".toList }, .ref "Leaf".toList [])]])
+    (.obj [("t".toList, .str "B".toList), ("c".toList, .obj [("x".toList, .int 1), ("fooBar".toList, .null)])]) :=
+  C01_oracle_sound _ 10 _ _ (by decide +kernel)
+
 end TsRs
